@@ -1,6 +1,7 @@
 import Proofs.Lemmas.AutogradChain
 import Proofs.Lemmas.AutogradExp
 import Proofs.Lemmas.AutogradExpSE3
+import Proofs.Lemmas.AutogradRxSO3
 import Proofs.Lemmas.AutogradLog
 import Proofs.Lemmas.AutogradZero
 import Proofs.Lemmas.AutogradLocalSO3a
@@ -573,4 +574,53 @@ theorem se3_Exp_nodeOK (dJ : DJ ℝ) (eps : ℝ) (heps : 0 ≤ eps) (lt : List T
       have := so3Exp_normSq_closed eps (v3 (eval eps (env 0) p) 3) heps hth
       simpa [expF, se3Exp, SE3.toList, tose3, qt, Quat.toList, Vec3.toList] using this
     · simp only [tangent, jvp1, length_mulVec _ (Shape_JlMat .SE3 eps _)]
+
+/-- local correctness of an `rxso3` `Exp` node on the closed-form branch -/
+theorem rxso3_Exp_nodeOK (dJ : DJ ℝ) (eps : ℝ) (heps : 0 ≤ eps) (lt : List Ty) (env : ℝ → List (DVec ℝ)) (tan : List (DVec ℝ))
+    (p : Prog) (hp : NodeOK dJ eps lt env tan p) (hth : eps < (v3 (eval eps (env 0) p)).norm) :
+    NodeOK dJ eps lt env tan (.un .Exp .RxSO3 p) := by
+  intro ty hty
+  simp only [tyOf] at hty
+  cases hpt : tyOf lt p with
+  | none => simp [hpt] at hty
+  | some t =>
+    simp only [hpt, Option.bind_some, ty1] at hty
+    split at hty <;> simp at hty
+    rename_i ht; subst ht; subst hty
+    obtain ⟨hL, hl, hτ⟩ := curveOK_V.mp (hp _ hpt)
+    obtain ⟨d0, d1, d2, d3, hd⟩ := len4 _ hτ
+    refine curveOK_G.mpr ⟨?_, ?_, ?_, ?_⟩
+    · have := rxso3Exp_tangent eps heps (fun s => eval eps (env s) p) d0 d1 d2 d3 (by rw [← hd]; exact hL) hth
+      simp only [tangent, jvp1, hd]
+      exact this
+    · show (qt (expF .RxSO3 eps (eval eps (env 0) p))).normSq = 1
+      have := so3Exp_normSq_closed eps (v3 (eval eps (env 0) p)) heps hth
+      simpa [expF, rxso3Exp, RxSO3.toList, torx, qt, Quat.toList] using this
+    · show nth (expF .RxSO3 eps (eval eps (env 0) p)) 4 ≠ 0
+      simp [expF, rxso3Exp, RxSO3.toList, torx, Quat.toList, Real.exp_ne_zero]
+    · simp only [tangent, jvp1, length_mulVec _ (Shape_JlMat .RxSO3 eps _)]
+
+/-- local correctness of an `RxSO3` `Log` node in regime 1 -/
+theorem rxso3_Log_nodeOK (dJ : DJ ℝ) (eps : ℝ) (heps : 0 ≤ eps) (lt : List Ty) (env : ℝ → List (DVec ℝ)) (tan : List (DVec ℝ))
+    (p : Prog) (hp : NodeOK dJ eps lt env tan p)
+    (hv : eps < (qt (eval eps (env 0) p)).vec.norm) (hw : eps < |(qt (eval eps (env 0) p)).w|)
+    (hφ : eps < (v3 (logF .SO3 eps [nth (eval eps (env 0) p) 0, nth (eval eps (env 0) p) 1, nth (eval eps (env 0) p) 2,
+      nth (eval eps (env 0) p) 3])).norm) :
+    NodeOK dJ eps lt env tan (.un .Log .RxSO3 p) := by
+  intro ty hty
+  simp only [tyOf] at hty
+  cases hpt : tyOf lt p with
+  | none => simp [hpt] at hty
+  | some t =>
+    simp only [hpt, Option.bind_some, ty1] at hty
+    split at hty <;> simp at hty
+    rename_i ht; subst ht; subst hty
+    obtain ⟨hX, hu, hs, hτ⟩ := curveOK_G.mp (hp _ hpt)
+    obtain ⟨a0, a1, a2, a3, ha⟩ := len4 _ hτ
+    refine curveOK_V.mpr ⟨?_, ?_, ?_⟩
+    · have := RxSO3Log_tangent eps heps (fun s => eval eps (env s) p) a0 a1 a2 a3 (by rw [← ha]; exact hX) hu hs hv hw hφ
+      simp only [tangent, jvp1, ha]
+      exact this
+    · intro t; simp only [eval, fwd1]; exact length_logF .RxSO3 eps _
+    · simp only [tangent, jvp1, length_mulVec _ (Shape_JlInvMat .RxSO3 eps _)]
 end PP.AD
